@@ -3,7 +3,7 @@
    shape, exactly the lemma naming that shape stops checking. *)
 From Coq Require Import List NArith ZArith Bool Lia.
 From FwdLib Require Import Bytes.
-From G03 Require Import Tables Tunnel Deadlines Check.
+From G03 Require Import Tables Tunnel ReplyReader Switchover Deadlines Check.
 Import ListNotations.
 Open Scope N_scope.
 
@@ -150,3 +150,21 @@ Proof. vm_compute. reflexivity. Qed.
 Lemma ob_deadline_survives_without_clearing :
   survives_without_rclear = (Some 601%Z, None) /\ survives_without_wclear = (None, Some 502%Z).
 Proof. vm_compute. split; reflexivity. Qed.
+
+(* the reader on the client connection: a head and 6 early bytes arriving as 30 + 100 ready bytes leave
+   exactly the 6 bytes behind the head in the reader; handed over byte-wise nothing is held; and the
+   tunnel started from the held bytes delivers them first *)
+Definition early_example_ok : bool :=
+  let head := b "CONNECT h:1 HTTP/1.1" ++ [13;10] ++ b "Host: h:1" ++ [13;10;13;10] in
+  match predicted_early (N.to_nat client_reader_size) head (b "early!") [30%nat; 100%nat],
+        predicted_early (N.to_nat client_reader_size) head (b "early!") (repeat 1%nat 60) with
+  | Some e1, Some e2 =>
+      str_eqb e1 (b "early!") && is_nil e2 &&
+      match run (tables_shape grace_ns) (init e1 [] [] None None) [LReply; LDrain e1] with
+      | Some s => str_eqb (d_rcv (s_ct s)) (b "early!")
+      | None => false
+      end
+  | _, _ => false
+  end.
+Lemma ob_early_example : early_example_ok = true.
+Proof. vm_compute. reflexivity. Qed.
